@@ -132,6 +132,18 @@ impl<'i> Attribute<'i> {
     }
 
     #[inline]
+    /// ASCII case-insensitive comparison of the attribute's name with an already lowercased
+    /// name in the same encoding.
+    fn has_name(&self, lowercased_name: &BytesCow<'_>) -> bool {
+        if self.encoding == encoding_rs::UTF_8 || self.encoding.is_single_byte() {
+            eq_case_insensitive(&self.name.as_ref(), &lowercased_name.as_ref())
+        } else {
+            // NOTE: trail bytes of multi-byte legacy encodings can be in the ASCII letter
+            // range, so bytes can't be case-folded. Compare the decoded names instead.
+            self.name.as_lowercase_string(self.encoding) == lowercased_name.as_string(self.encoding)
+        }
+    }
+
     fn set_value(&mut self, value: &str) {
         self.value = BytesCow::owned_from_str(value, self.encoding);
         self.raw = None;
@@ -197,7 +209,7 @@ impl<'i> Attributes<'i> {
     ) -> Option<R> {
         let name = Attribute::name_from_string(name.to_ascii_lowercase(), self.encoding).ok()?;
         let check = move |attr: &Attribute<'_>| {
-            if eq_case_insensitive(&attr.name.as_ref(), &name.as_ref()) {
+            if attr.has_name(&name) {
                 Some(map(attr))
             } else {
                 None
@@ -232,7 +244,7 @@ impl<'i> Attributes<'i> {
         let items = self.as_mut_vec();
         match items
             .iter_mut()
-            .find(|attr| eq_case_insensitive(&attr.name.as_ref(), &name.as_ref()))
+            .find(|attr| attr.has_name(&name))
         {
             Some(attr) => attr.set_value(value),
             None => {
@@ -255,7 +267,7 @@ impl<'i> Attributes<'i> {
         };
         let items = self.as_mut_vec();
         let len_before = items.len();
-        items.retain(|attr| !eq_case_insensitive(&attr.name.as_ref(), &name.as_ref()));
+        items.retain(|attr| !attr.has_name(&name));
         len_before != items.len()
     }
 
